@@ -453,7 +453,7 @@ func c04(c *Ctx, roundtripOnly bool) {
 	if roundtripOnly {
 		c.Rule = "index states: the C04 generator (sorted sequences of <=3 records over boundary-biased interval alphabets on references 0..3 incl. references without records, placed-unmapped and unplaced records) for BAI, tabix (3 header settings) and CSI v1/v2 x aux {nil, 5 bytes} on geometries (14,5),(12,4),(1,2),(3,3). For every state (also built with a query and a write between the Adds): write -> read -> write gives identical bytes, also when the reader's source delivers one byte per Read call; NumRefs, per-reference mapped/unmapped counts and chunk spans and the unplaced count are equal on both sides and equal the true counts of the records added; every C04 query answers identically on the re-read index. Non-trivial: states with >=2 records or a reference without records."
 	} else {
-		c.Rule = "BAI, tabix and CSI (geometries (14,5),(12,4),(1,2),(3,3); thorough adds (14,6) on the reduced alphabet): every sorted sequence of 1-2 records over the full interval alphabet (starts at 0,1,T-1,T,T+1,2T, every bin-level boundary +-1, limit-2, limit-1; lengths 1,2,T-1,T,T+1,8T,largest level+1) and every sequence of 3 over a reduced alphabet, on reference patterns (0),(0,0),(0,1),(0,2: reference 1 empty),(0,0,0),(0,0,2),(0,1,1),(0,1,3), plus placed-unmapped and unplaced records; chunks are consecutive synthetic virtual offsets (same-block, block-end and next-block forms). For every state and every query interval ([p,p+1) and [p,p+T+1) for every alphabet position p, plus whole-range and tile-edge queries) on every reference: Add never fails or panics, and every record overlapping the query is covered by the union of the returned chunks (an error or empty answer implies no overlap); repeated on an index that was queried and written between the Adds, after write->read and after MergeChunks with Identity, Adjacent, Squash, Compressor(0), Compressor(65536). Non-trivial: (state, query) pairs with at least one overlapping record."
+		c.Rule = "BAI, tabix and CSI (geometries (14,5),(12,4),(1,2),(3,3); thorough adds (14,6) on the reduced alphabet): every sorted sequence of 1-2 records over the full interval alphabet (starts at 0,1,T-1,T,T+1,2T, every bin-level boundary +-1, limit-2, limit-1; lengths 1,2,T-1,T,T+1,8T,largest level+1) and every sequence of 3 over a reduced alphabet, on reference patterns (0),(0,0),(0,1),(0,2: reference 1 empty),(0,0,0),(0,0,2),(0,1,1),(0,1,3), plus placed-unmapped and unplaced records; chunks are consecutive synthetic virtual offsets (same-block, block-end and next-block forms). For every state and every query interval ([p,p+1) and [p,p+T+1) for every alphabet position p, plus whole-range and tile-edge queries) on every reference: Add never fails or panics, and every record overlapping the query is covered by the union of the returned chunks (an error or empty answer implies no overlap); repeated on an index that was queried and written between the Adds, after write->read and after MergeChunks with Identity, Adjacent, Squash, Compressor(0), Compressor(65536) (BAI: also with the Index's MergeStrategy field set to Adjacent, Squash, Compressor(65536) at query time). Non-trivial: (state, query) pairs with at least one overlapping record."
 	}
 	if c.Replay != nil {
 		var cas c04case
@@ -606,6 +606,17 @@ func c04run(c *Ctx, cas c04case, roundtripOnly bool, evals, nontriv *int64) {
 		ok := guard(c, cas.Kind+":MergeChunks:"+s.name, cas, func() { z.merge(s.s) })
 		if ok {
 			c04queries(c, cas, z, "merge:"+s.name, queries, nrefs, evals, nontriv)
+			// bam.Index also applies its exported MergeStrategy field to every answer
+			if b, isBAI := z.(baiIdx); isBAI && (s.name == "Identity" || s.name == "Squash" || s.name == "Compressor0") {
+				for _, q := range c04strategies {
+					if q.name == "Identity" || q.name == "Compressor0" {
+						continue
+					}
+					b.x.MergeStrategy = q.s
+					c04queries(c, cas, z, "merge:"+s.name+"+query-time-"+q.name, queries, nrefs, evals, nontriv)
+				}
+				b.x.MergeStrategy = nil
+			}
 		}
 	}
 }
